@@ -27,7 +27,7 @@ THEOREMS = [
 SUPP_GEN = ["UrlRules", "Versions"]
 SUPP_THEOREMS = [
     "c15_client_trace_shape", "c15_client_init_once", "c15_client_lazy_init", "c15_client_initialized_stable",
-    "c15_client_rejected_args", "c15_client_agnostic",
+    "c15_client_rejected_args", "c15_client_agnostic", "c15_client_one_result_per_op", "c15_connect_shape",
     "c15_url_heuristics", "c15_detect_sound", "c15_detect_probes", "c15_detect_guard", "c15_fallback_decision", "c15_try_sse_decision",
     "c15_instances_independent", "c15_stdio_instances",
     "c15_block_error_leaves", "c15_block_text_exit_swallows",
